@@ -338,6 +338,33 @@ fn check_json(ep: &EnergyPerformance, json: &str, cfg: &str, out: &mut Out) {
                 // weighted energies at the 3 decimals the JSON carries)
                 let fb = result_flat(&back);
                 let mut bad = vec![];
+                // the echoed inputs too: component kinds, ids, tags, comments and values (exact), factors (3 decimals)
+                for (what, a, b, t) in [
+                    ("components", crate::tree::flat_str(&format!("{:?}", ep.components)), crate::tree::flat_str(&format!("{:?}", back.components)), 1e-6),
+                    ("wfactors", crate::tree::flat_str(&format!("{:?}", ep.wfactors)), crate::tree::flat_str(&format!("{:?}", back.wfactors)), 0.0011),
+                ] {
+                    for (p, l) in &a {
+                        match (l.num(), b.get(p)) {
+                            (Some(x), Some(m)) => {
+                                let y = m.num().unwrap_or(f64::NAN);
+                                if !((x - y).abs() <= t + 2e-6 * x.abs() || x == y || (x.is_nan() && y.is_nan())) {
+                                    bad.push(format!("{what}{p}: read back {y} vs {x}"));
+                                }
+                            }
+                            (None, Some(m)) => {
+                                if format!("{m:?}") != format!("{l:?}") {
+                                    bad.push(format!("{what}{p}: read back {m:?} vs {l:?}"));
+                                }
+                            }
+                            (_, None) => bad.push(format!("{what}{p}: absent in the value read back")),
+                        }
+                    }
+                    for p in b.keys() {
+                        if !a.contains_key(p) {
+                            bad.push(format!("{what}{p}: only in the value read back"));
+                        }
+                    }
+                }
                 for (p, l) in &flat {
                     if p.starts_with("misc") {
                         continue;
